@@ -97,32 +97,35 @@ Definition do_write (s : st) (d : list Z) (o : outcome) : st * out :=
     let s1 := set_buf s (buf_append (sendbuf s) d) in            (* _sendBuffer.append(data, size) *)
     (s1, mkout (Some true) (buf_size (sendbuf s1)) [] [] [] [] false false).
 
-(* ---- the write-readiness branch of run() ------------------------------------------------------ *)
-Definition drained (s : st) (tx : list Z) (log : list (Z * Z)) : st * out :=
+(* ---- the write-readiness part of the client dispatch in run() ---------------------------------
+   The third component says whether the part ended in a `continue` (a callback was delivered:
+   the event is finished, whatever other flags it carried). *)
+Definition drained (s : st) (tx : list Z) (log : list (Z * Z)) : st * out * bool :=
   if buf_isEmpty (sendbuf s) then                                (* if (client._sendBuffer.isEmpty()) *)
     let s1 := set_buf s (buf_free (sendbuf s)) in
     let s2 := if suspended s1 then poll_set s1 false false else poll_set s1 true false in
-    (s2, mkout None 0 [OnWrite] tx log [] false false)
-  else (s, mkout None 0 [] tx log [] false false).
+    (s2, mkout None 0 [OnWrite] tx log [] false false, true)     (* onWrite(); continue *)
+  else (s, mkout None 0 [] tx log [] false false, false).
 
-Definition write_ready (s : st) (o : outcome) : st * out :=
+Definition write_ready (s : st) (o : outcome) : st * out * bool :=
   if negb (buf_isEmpty (sendbuf s)) then
     let size := buf_size (sendbuf s) in
-    let '(sent, e0) := send_ret size o in                        (* client.send(_sendBuffer, _sendBuffer.size()) *)
-    let log := [(size, sent)] in
+    let '(sent0, e0) := send_ret size o in                       (* client.send(_sendBuffer, _sendBuffer.size()) *)
+    let log := [(size, sent0)] in
     let fail :=
       let s1 := set_buf s (buf_free (sendbuf s)) in              (* _sendBuffer.free() *)
       let s2 := poll_remove s1 in                                (* _sockets.remove(client) *)
-      (s2, mkout None 0 [OnClosed] [] log [] true false) in      (* _callback->onClosed(); continue *)
-    if sent =? -1 then
-      if e0 then (s, mkout None 0 [] [] log [] false false)      (* EWOULDBLOCK: continue *)
-      else fail
-    else if sent =? 0 then fail
-    else
+      (s2, mkout None 0 [OnClosed] [] log [] true false, true) in (* _callback->onClosed(); continue *)
+    let go (sent : Z) :=
       let tx := ztake sent (sendbuf s) in
       let s1 := os_take s tx in
       let s2 := set_buf s1 (buf_removeFront (sendbuf s1) sent) in  (* _sendBuffer.removeFront(sent) *)
-      drained s2 tx log
+      drained s2 tx log in
+    if sent0 =? -1 then
+      if e0 then go 0                                            (* EWOULDBLOCK: sent = 0; break *)
+      else fail
+    else if sent0 =? 0 then fail
+    else go sent0
   else drained s [] [].
 
 (* ---- Poll (linux): what the kernel reports, unmapEvents, and the dispatch rule of run() ----- *)
@@ -135,6 +138,20 @@ Definition unmap_events (s : st) (n : native) : bool * bool :=
   let w := (nout n || (negb r && nhup n)) && int_w s in          (* result |= events & writeFlag *)
   (r, w).
 
+Definition add_cb (r : out) (c : cb) : out :=
+  mkout (o_ret r) (o_num r) (o_cbs r ++ [c]) (o_tx r) (o_sends r) (o_data r) (o_drop r) (o_dead r).
+
+(* the client part of the dispatch: the write part first, then - unless the write part already
+   delivered a callback - the read notification of the same event *)
+Definition dispatch_flags (s : st) (r w : bool) (o : outcome) : st * out :=
+  if w then                                                      (* if (flags & writeFlag) { *)
+    let '(s1, r1, fin) := write_ready s o in
+    if fin then (s1, r1)                                         (*   ... continue; *)
+    else if negb r then (s1, r1)                                 (*   if (!(flags & readFlag)) continue; } *)
+    else (s1, add_cb r1 OnRead)                                  (* if (flags & readFlag) onRead() *)
+  else if r then (s, out_cb OnRead)
+  else (s, out_none).                                            (* flags == 0: handled like a timeout *)
+
 Definition dispatch (s : st) (n : native) (o : outcome) : st * out :=
   if negb (registered s) then (s, out_none)                      (* descriptor not in the epoll set *)
   else
@@ -142,9 +159,21 @@ Definition dispatch (s : st) (n : native) (o : outcome) : st * out :=
     if negb (nin n' || nout n' || nhup n') then (s, out_none)    (* epoll_wait reports nothing *)
     else
       let '(r, w) := unmap_events s n' in
-      if r then (s, out_cb OnRead)                               (* if (flags & readFlag) onRead() *)
-      else if w then write_ready s o                             (* else if (flags & writeFlag) ... *)
-      else (s, out_none).                                        (* flags == 0: handled like a timeout *)
+      dispatch_flags s r w o.
+
+(* The dispatch rule of the code BEFORE the repair fixes/C13/01 (`if (read) onRead(); else if
+   (write) {...}` with `continue` on EWOULDBLOCK): kept only to state the defect as a theorem
+   (Properties_C13.unrepaired_dispatch_starves_backlog); not part of [step]. *)
+Definition dispatch_unrepaired (s : st) (n : native) (o : outcome) : st * out :=
+  if negb (registered s) then (s, out_none)
+  else
+    let n' := kernel_filter s n in
+    if negb (nin n' || nout n' || nhup n') then (s, out_none)
+    else
+      let '(r, w) := unmap_events s n' in
+      if r then (s, out_cb OnRead)
+      else if w then let '(s1, r1, _) := write_ready s o in (s1, r1)
+      else (s, out_none).
 
 (* ---- ClientImpl::read --------------------------------------------------------------------------- *)
 Definition do_read (s : st) (max : Z) : st * out :=
